@@ -68,6 +68,9 @@ func (l *RateLimiter) Acquire(ctx context.Context, tokens int) (err error) {
 	now := time.Now().UnixNano()
 	last := atomic.LoadInt64(&l.next)
 	for {
+		if err = ctx.Err(); err != nil {
+			return // the caller has given up already: nothing is taken for it
+		}
 		if l.timeout > 0 && last > now && time.Duration(last-now) > l.timeout {
 			// the wait would exceed the time-out: refused before anything is taken (a caller
 			// that is turned away must not push the next free instant further out; a burst of
